@@ -1774,16 +1774,16 @@ def inst_strategy():
 
 SUBCHECKS = [
     Sub('mofstr', strategy=mofstr_strategy, oracle=mofstr_oracle,
-        quick=(16, 1250), thorough=(16, 60000), case_timeout=10),
+        quick=(16, 1250), thorough=(16, 60000), case_timeout=20),
     Sub('handwritten', strategy=handwritten_strategy,
-        oracle=handwritten_oracle, quick=(16, 250), thorough=(16, 20000),
-        case_timeout=10),
+        oracle=handwritten_oracle, quick=(16, 250), thorough=(16, 12000),
+        case_timeout=20),
     Sub('qualdecl', strategy=qualdecl_strategy, oracle=qualdecl_oracle,
-        quick=(16, 700), thorough=(16, 12000), case_timeout=10),
+        quick=(16, 700), thorough=(16, 12000), case_timeout=20),
     Sub('cls', strategy=cls_strategy, oracle=cls_oracle,
-        quick=(16, 500), thorough=(16, 8000), case_timeout=10),
+        quick=(16, 500), thorough=(16, 8000), case_timeout=20),
     Sub('inst', strategy=inst_strategy, oracle=inst_oracle,
-        quick=(16, 500), thorough=(16, 8000), case_timeout=10),
+        quick=(16, 500), thorough=(16, 8000), case_timeout=20),
     Sub('nonascii', strategy=nonascii_strategy, oracle=nonascii_oracle,
         quick=(1, 40), thorough=(1, 200)),
 ]
